@@ -207,10 +207,10 @@ class Runner:
         self.lines = []
         self.meta = []
 
-    def add(self, level, a, b, blocks, tokens_a, tokens_b, note):
+    def add(self, level, a, b, blocks, tokens_a, tokens_b, note, tols=TOLS):
         """one pair -> both directions x both tolerances"""
         self.res["pairs"] += 1
-        for tol_arg in TOLS:
+        for tol_arg in tols:
             tol = DEFAULT_TOL if tol_arg is None else tol_arg
             for (x, y, tx, ty, bl) in ((a, b, tokens_a, tokens_b, blocks), (b, a, tokens_b, tokens_a, [(q, p) for p, q in blocks])):
                 if in_band(bl, tol):
@@ -276,6 +276,20 @@ def stream_poses(R, tol_for_pert=DEFAULT_TOL):
                         for sign in (1.0, -1.0):
                             b = C.raw_pose(kb, perturbed(a, i, k, tp, sign))
                             R.add("pose", a, b, [(np.asarray(a), np.asarray(b))], C.pose_tokens(a), C.pose_tokens(b), dict(kinds=[ka, kb], magn=magn, comp=i, k=k, pert_tol=tp))
+    # which operand's norm is the scale: with a (silly but legal) tolerance of 3 a large pose accepts the zero pose while
+    # the zero pose rejects the large one, both far outside the skipped band
+    for ka in C.KINDS:
+        a = C.raw_pose(ka, [100.0 * x for x in base_vals(ka, "gen")])
+        b = C.raw_pose(ka, base_vals(ka, "zero"))
+        R.add("pose", a, b, [(np.asarray(a), np.asarray(b))], C.pose_tokens(a), C.pose_tokens(b), dict(kinds=[ka, ka], asymmetry=True), tols=[3.0])
+        va, vb = C.Vertex(4, a), C.Vertex(4, b)
+        R.add("vertex", va, vb, [(np.asarray(a), np.asarray(b))], C.vertex_tokens(va), C.vertex_tokens(vb), dict(kinds=[ka, ka], asymmetry=True), tols=[3.0])
+        ea, eb = C.EdgeOdometry([1, 2], 100.0 * np.eye(3), a), C.EdgeOdometry([1, 2], np.zeros((3, 3)), a)
+        R.add("edge", ea, eb, edge_blocks(ea, eb), C.edge_tokens(ea), C.edge_tokens(eb), dict(asymmetry="information"), tols=[3.0])
+        ea, eb = C.CustomTrue([1], np.eye(1), np.asarray(a).copy()), C.CustomTrue([1], np.eye(1), np.asarray(b).copy())
+        R.add("edge", ea, eb, edge_blocks(ea, eb), C.edge_tokens(ea), C.edge_tokens(eb), dict(asymmetry="estimate"), tols=[3.0])
+        ea, eb = C.EdgeLandmark([1, 2], np.eye(2), C.raw_pose("r2", [1.0, 2.0]), a, 0), C.EdgeLandmark([1, 2], np.eye(2), C.raw_pose("r2", [1.0, 2.0]), b, 0)
+        R.add("edge", ea, eb, edge_blocks(ea, eb), C.edge_tokens(ea), C.edge_tokens(eb), dict(asymmetry="offset"), tols=[3.0])
     # constructed through the public constructors (angle wrap, quaternion as given)
     from graphslam.pose.se2 import PoseSE2
     from graphslam.pose.se3 import PoseSE3
@@ -556,4 +570,5 @@ if __name__ == "__main__":
     import json
 
     out = run(int(os.environ.get("VERIF_SEED", "0")), os.environ.get("VERIF_TIER", "quick"))
-    print(json.dumps({k: v for k, v in out.items() if k != "samples"}, default=str, indent=1)[:6000])
+    out["disagreements"] = [{k: (v[:300] if isinstance(v, str) else v) for k, v in d.items()} for d in out["disagreements"][:4]]
+    print(json.dumps({k: v for k, v in out.items() if k != "samples"}, default=str, indent=1))
